@@ -1,4 +1,5 @@
 import GufoSnmp.Lemmas.PrivLemmas
+import GufoSnmp.Lemmas.RecvErr
 /-!
 # C01 — no datagram can crash the client: the receive path is total
 
@@ -184,6 +185,172 @@ theorem recv_documented (C : Ciphers) (op : OpKind) :
     · exact recv_documented C op rest _ it e h
     · cases h; exact exc_table _
     · cases h
+
+
+/-! ## The exact family: what a receiving call can raise, class by class
+
+`Documented` above is the image of the whole error table. The receive path reaches less: every error of
+the datagram decoders is of the `SnmpDecodeError` class (`Lemmas/DecErr.lean`), so `NotImplementedError`
+cannot come out of a receiving call; `RuntimeError` only out of `get_many` (documented there). -/
+
+/-- the classes a receiving call can raise: the property's list plus `RuntimeError` (get_many) -/
+def Raised : List PyExc :=
+  [.SnmpError, .SnmpDecodeError, .SnmpEncodeError, .SnmpAuthError, .NoSuchInstance, .ValueError,
+   .BlockingIOError, .TimeoutError, .OSError, .StopIteration, .StopAsyncIteration, .RuntimeError]
+
+theorem raised_of_decode {e : SnmpError} (h : pyClass e = .SnmpDecodeError) : pyClass e ∈ Raised := by
+  rw [h]; decide
+
+theorem oidToStr_de (oid : Bytes) : DE (oidToStr oid) := by
+  unfold oidToStr
+  split
+  · exact de_err _ (by decide)
+  · exact de_ok _
+
+theorem valueToPy_de (v : Value) : DE (valueToPy v) := by
+  cases v <;> simp only [valueToPy] <;> first
+    | exact de_ok _
+    | exact de_panic _
+    | (apply de_bind (oidToStr_de _); intro _ _; exact de_ok _)
+
+macro "raised_tac" : tactic =>
+  `(tactic| first
+    | decide
+    | (apply raised_of_decode; exact oidToStr_de _ _ ‹_›)
+    | (apply raised_of_decode; exact valueToPy_de _ _ ‹_›))
+
+theorem liftErr_r {α} (x : Outcome α) (k : α → PyOut) (e : PyExc) (hx : DE x)
+    (hk : ∀ a, k a = .raise e → e ∈ Raised) (h : liftErr x k = .raise e) : e ∈ Raised := by
+  unfold liftErr at h
+  cases x with
+  | ok a => exact hk a h
+  | err er => cases h; exact raised_of_decode (hx er rfl)
+  | panic w => cases h
+
+theorem opGet_r (p : Pdu) (e : PyExc) (h : opGetToPython p = .raise e) : e ∈ Raised := by
+  unfold opGetToPython at h
+  split at h
+  · split at h
+    · cases h
+    · split at h
+      · cases h; raised_tac
+      · cases h; raised_tac
+      · cases h; raised_tac
+      · cases h
+      · exact liftErr_r _ _ e (valueToPy_de _) (fun a ha => by cases ha) h
+    · cases h; raised_tac
+  · cases h; raised_tac
+  · cases h; raised_tac
+
+theorem getManyLoop_r : ∀ (vars : List VarBind) (acc : List (Bytes × PyScalar)) (e : PyExc),
+    getManyLoop vars acc = .raise e → e ∈ Raised
+  | [], _, _, h => by simp [getManyLoop] at h
+  | var :: more, acc, e, h => by
+    unfold getManyLoop at h
+    split at h
+    · exact getManyLoop_r more acc e h
+    · split at h
+      · split at h
+        · exact getManyLoop_r more _ e h
+        · cases h; raised_tac
+        · cases h
+      · cases h; raised_tac
+      · cases h
+
+theorem opGetMany_r (p : Pdu) (e : PyExc) (h : opGetManyToPython p = .raise e) : e ∈ Raised := by
+  unfold opGetManyToPython at h
+  split at h
+  · exact getManyLoop_r _ _ e h
+  · cases h; raised_tac
+  · cases h; raised_tac
+
+theorem opGetNext_r (p : Pdu) (it : Option GetIter) (e : PyExc)
+    (h : (opGetNextToPython p it).1 = .raise e) : e ∈ Raised := by
+  unfold opGetNextToPython at h
+  split at h
+  · cases h; raised_tac
+  · split at h
+    · split at h
+      · cases h; raised_tac
+      · simp only at h
+        split at h
+        · cases h; raised_tac
+        · split at h
+          · cases h; raised_tac
+          · refine liftErr_r _ _ e (oidToStr_de _) (fun a ha => ?_) h
+            exact liftErr_r _ _ e (valueToPy_de _) (fun b hb => by cases hb) ha
+      · cases h; raised_tac
+    · cases h; raised_tac
+    · cases h; raised_tac
+
+theorem getBulkLoop_r : ∀ (vars : List VarBind) (it : GetIter) (acc : List (Option (Bytes × Bytes × PyScalar)))
+    (out : PyOut) (e : PyExc), (getBulkLoop vars it acc).1 = .error out → out = .raise e → e ∈ Raised
+  | [], _, _, _, _, h, _ => by simp [getBulkLoop] at h
+  | var :: more, it, acc, out, e, h, he => by
+    unfold getBulkLoop at h
+    split at h
+    · exact getBulkLoop_r more it acc out e h he
+    · simp only at h
+      split at h
+      · cases h
+      · split at h
+        · split at h
+          · exact getBulkLoop_r more _ _ out e h he
+          · cases h; cases he; raised_tac
+          · cases h; cases he
+        · cases h; cases he; raised_tac
+        · cases h; cases he
+
+theorem opGetBulk_r (p : Pdu) (it : Option GetIter) (e : PyExc)
+    (h : (opGetBulkToPython p it).1 = .raise e) : e ∈ Raised := by
+  unfold opGetBulkToPython at h
+  split at h
+  · cases h; raised_tac
+  · split at h
+    · split at h
+      · cases h; raised_tac
+      · split at h
+        · split at h
+          · cases h; raised_tac
+          · cases h
+        · rename_i out it' heq
+          exact getBulkLoop_r _ _ _ out e (by rw [heq]) h
+    · cases h; raised_tac
+    · cases h; raised_tac
+
+theorem toPython_r (op : OpKind) (p : Pdu) (it : Option GetIter) (e : PyExc)
+    (h : (toPython op p it).1 = .raise e) : e ∈ Raised := by
+  cases op <;> simp only [toPython] at h
+  · exact opGet_r p e h
+  · exact opGetMany_r p e h
+  · exact opGetNext_r p it e h
+  · exact opGetBulk_r p it e h
+  · cases h
+
+theorem recv_raised (C : Ciphers) (op : OpKind) :
+    ∀ (dgs : List Bytes) (s : Session) (it : Option GetIter) (e : PyExc),
+      (s.recvLoop C op it dgs).1 = .raise e → e ∈ Raised
+  | [], _, _, e, h => by
+    simp only [Session.recvLoop] at h; cases h; raised_tac
+  | dg :: rest, s, it, e, h => by
+    unfold Session.recvLoop at h
+    split at h
+    · exact toPython_r op _ it e h
+    · exact recv_raised C op rest _ it e h
+    · rename_i s' er heq
+      cases h
+      exact raised_of_decode (recvOne_decode_class C s dg er (by rw [heq]))
+    · cases h
+
+
+/-- **C01.recv_listed**: whatever arrives, an exception raised by the receiving call belongs to the
+family the property lists (SnmpError family, TimeoutError / BlockingIOError, OSError, ValueError,
+StopIteration / StopAsyncIteration) or is the `RuntimeError` documented for `get_many`; in particular
+never `NotImplementedError`, and never anything else for a datagram that fails to decode -/
+theorem recv_listed (C : Ciphers) (op : OpKind) (dgs : List Bytes) (s : Session) (it : Option GetIter) (e : PyExc)
+    (h : (s.recvLoop C op it dgs).1 = .raise e) : e ∈ Raised ∧ e ≠ .NotImplementedError := by
+  have := recv_raised C op dgs s it e h
+  exact ⟨this, by intro he; rw [he] at this; revert this; decide⟩
 
 /-- **C01.recv_trichotomy**: value, documented exception — never a panic. -/
 theorem recv_trichotomy (C : Ciphers) (hC : C.WF) (s : Session) (op : OpKind) (it : Option GetIter)
